@@ -49,6 +49,15 @@ func VerifH06s() {
 					sym.Assert("C06/stepinv/sample", sv.SampleIDs[j] == in.IDs[j] && sym.SameF(sv.Samples[j], in.Vs[j]))
 				}
 			}
+			// consumers (function, unary, scalar-binary operators) rewrite the vectors they
+			// receive in place: do the same, so that every later step must still carry the
+			// pinned values (each step vector is the consumer's own copy)
+			for j := range sv.Samples {
+				sv.Samples[j] = -12345.5
+			}
+			for j := range sv.SampleIDs {
+				sv.SampleIDs[j] = 99
+			}
 			i++
 		}
 	}
